@@ -1,37 +1,45 @@
 import ZarrsModel.Driver.Proto
+import ZarrsModel.Driver.C08
 import ZarrsModel.Driver.C09
 import ZarrsModel.Driver.C10
 import ZarrsModel.Driver.C11
 /-
 Line-protocol driver: reads `request -> implementation outcome` lines, replays each request through the
-model's executable definitions and prints one verdict line per request:
-  `OK`                      model outcome equals the implementation outcome (or model says `any`)
-  `DIFF <n> model=<...>`    they differ
+model's executable definitions and prints one verdict line per disagreement:
+  `DIFF <n> model=<...>`    the implementation outcome is not among the outcomes the model/spec accepts
   `BAD <n>`                 unparsable request (never defaulted)
+  `NOTE <n> ...`            internal cross-check of the driver (model vs spec) failed
+and a final `SUMMARY` line.
 -/
 open Zarrs Zarrs.Proto
 
-def dispatch (l : Line) : Option String :=
+structure DState where
+  c08 : DriverC08.St := {}
+
+/-- new state, acceptable outcomes (`any` accepts everything), optional note -/
+def dispatch (st : DState) (l : Line) : Option (DState × List String × Option String) :=
   match l.verbs.head? with
-  | some "c09" => DriverC09.handle l
-  | some "c10" => DriverC10.handle l
-  | some "c11" => DriverC11.handle l
+  | some "c08" => (DriverC08.handle st.c08 l).map (fun (s, a, n) => ({ st with c08 := s }, a, n))
+  | some "c09" => (DriverC09.handle l).map (fun m => (st, [m], none))
+  | some "c10" => (DriverC10.handle l).map (fun m => (st, [m], none))
+  | some "c11" => (DriverC11.handle l).map (fun m => (st, [m], none))
   | _ => none
 
-partial def loop (h : IO.FS.Stream) (n : Nat) (ok diff bad : Nat) : IO (Nat × Nat × Nat) := do
+partial def loop (h : IO.FS.Stream) (st : DState) (n : Nat) (ok diff bad : Nat) : IO (Nat × Nat × Nat) := do
   let line ← h.getLine
   if line.isEmpty then return (ok, diff, bad)
   let s := (line.trimAsciiEnd).toString
-  if s.isEmpty || s.startsWith "#" then loop h (n + 1) ok diff bad else
+  if s.isEmpty || s.startsWith "#" then loop h st (n + 1) ok diff bad else
   let l := parseLine s
-  match dispatch l with
-  | none => IO.println s!"BAD {n}"; loop h (n + 1) ok diff (bad + 1)
-  | some m =>
-    if m == l.outcome || m == "any" then loop h (n + 1) (ok + 1) diff bad
-    else IO.println s!"DIFF {n} model={m}"; loop h (n + 1) ok (diff + 1) bad
+  match dispatch st l with
+  | none => IO.println s!"BAD {n}"; loop h st (n + 1) ok diff (bad + 1)
+  | some (st', acc, note) =>
+    if let some t := note then IO.println s!"NOTE {n} {t}"
+    if acc.contains l.outcome || acc.contains "any" then loop h st' (n + 1) (ok + 1) diff bad
+    else IO.println s!"DIFF {n} model={" || ".intercalate acc}"; loop h st' (n + 1) ok (diff + 1) bad
 
 def main : IO UInt32 := do
   let stdin ← IO.getStdin
-  let (ok, diff, bad) ← loop stdin 1 0 0 0
+  let (ok, diff, bad) ← loop stdin {} 1 0 0 0
   IO.println s!"SUMMARY ok={ok} diff={diff} bad={bad}"
   return 0
